@@ -10,6 +10,7 @@ From RPCX Require XClient.Breaker.
 From RPCX Require Client.ClientSM.
 From RPCX Require XClient.FailMode XClient.Multi XClient.Discovery XClient.Backup XClient.Metadata.
 From RPCX Require Server.Dispatch.
+From RPCX Require Server.Gate.
 From RPCX Require Pool.Pool.
 From RPCX Require Server.Ingress Server.Gateway Server.StockPlugins.
 From RPCX Require Server.Shutdown.
@@ -33,7 +34,7 @@ Extraction "model.ml"
   Multi.broadcast Multi.fork Multi.inform
   Discovery.drun Discovery.drain Discovery.filter_servers
   Metadata.filter_raw Metadata.weight_raw Metadata.keep_raw
-  Dispatch.crun Dispatch.cinit
+  Dispatch.crun Dispatch.cinit Gate.grun Gate.ginit
   Pool.find_get Pool.find_put Pool.class_size Pool.last_class
   Ingress.serve
   StockPlugins.whitelist_admits StockPlugins.blacklist_admits StockPlugins.rate_run
